@@ -14,6 +14,8 @@ import (
 	"strconv"
 	"strings"
 	"sync"
+	"syscall"
+	"time"
 
 	"github.com/rogpeppe/go-internal/testscript"
 )
@@ -47,11 +49,19 @@ type Case struct {
 	NoRoot   bool        `json:"no_root,omitempty"`   // run without Params.WorkdirRoot (work directory under $TMPDIR) ...
 	TestWork bool        `json:"test_work,omitempty"` // ... with this Params.TestWork
 	Shadow   bool        `json:"shadow,omitempty"`    // Params.Cmds also has keys named like built-in and registered commands
+	RawHex   string      `json:"raw_hex,omitempty"`   // the text of the script file when it is not the canonical rendering of Lines and Files (same txtar.Parse)
+	DL       int         `json:"dl,omitempty"`        // Params.Deadline: 0 none, 1 short (reached while the script is blocked on a sleeping helper), 2 far away
+	DLms     int         `json:"dl_ms,omitempty"`     // the short deadline, milliseconds from the start of the run
 	Kind     string      `json:"kind"`              // constructive | wild | corpus | cli | c16
 	Note     string      `json:"note,omitempty"`
 }
 
 func (c *Case) fileBytes() []byte {
+	if c.RawHex != "" {
+		if raw, err := hex.DecodeString(c.RawHex); err == nil {
+			return raw
+		}
+	}
 	var b strings.Builder
 	for _, l := range c.Lines {
 		b.WriteString(l)
@@ -76,6 +86,8 @@ type Obs struct {
 	Log       string
 	PanicVal  string
 	WorkLeft  bool // the work directory still exists after the run
+	Written   bool // the script file was written during the run (its modification time, inode or size changed)
+	Elapsed   time.Duration
 }
 
 var (
@@ -139,6 +151,7 @@ func runImpl(c *Case, dir string) *Obs {
 		o.Verdict = "HARNESS-ERROR " + err.Error()
 		return o
 	}
+	before := stampFile(script)
 	var pmu sync.Mutex
 	p := testscript.Params{
 		Files:               []string{script},
@@ -213,7 +226,18 @@ func runImpl(c *Case, dir string) *Obs {
 		p.WorkdirRoot = ""
 		p.TestWork = c.TestWork
 	}
+	switch c.DL {
+	case 1:
+		ms := c.DLms
+		if ms <= 0 {
+			ms = 2000
+		}
+		p.Deadline = time.Now().Add(time.Duration(ms) * time.Millisecond)
+	case 2:
+		p.Deadline = time.Now().Add(time.Hour)
+	}
 	t := &recT{}
+	t0 := time.Now()
 	func() {
 		defer func() {
 			if e := recover(); e != nil {
@@ -222,6 +246,8 @@ func runImpl(c *Case, dir string) *Obs {
 		}()
 		testscript.RunT(t, p)
 	}()
+	o.Elapsed = time.Since(t0)
+	o.Written = before.changed(script)
 	switch {
 	case t.panicV != "":
 		o.Verdict = "PANIC"
@@ -306,4 +332,47 @@ func cleanup(dir string) {
 		return nil
 	})
 	os.RemoveAll(dir)
+}
+
+// fileStamp notices a write to a file even when the bytes written are the bytes that were there.
+type fileStamp struct {
+	mtime time.Time
+	ino   uint64
+	size  int64
+	ok    bool
+}
+
+var oldTime = time.Unix(1_000_000_000, 0)
+
+func stampFile(path string) fileStamp {
+	os.Chtimes(path, oldTime, oldTime)
+	fi, err := os.Stat(path)
+	if err != nil {
+		return fileStamp{}
+	}
+	st := fileStamp{mtime: fi.ModTime(), size: fi.Size(), ok: true}
+	if sys, ok := fi.Sys().(*syscall.Stat_t); ok {
+		st.ino = sys.Ino
+	}
+	return st
+}
+
+func (b fileStamp) changed(path string) bool {
+	if !b.ok {
+		return false // could not be set up: nothing is claimed
+	}
+	a := stampFile2(path)
+	return !a.ok || !a.mtime.Equal(b.mtime) || a.ino != b.ino || a.size != b.size
+}
+
+func stampFile2(path string) fileStamp {
+	fi, err := os.Stat(path)
+	if err != nil {
+		return fileStamp{}
+	}
+	st := fileStamp{mtime: fi.ModTime(), size: fi.Size(), ok: true}
+	if sys, ok := fi.Sys().(*syscall.Stat_t); ok {
+		st.ino = sys.Ino
+	}
+	return st
 }
